@@ -413,6 +413,11 @@ func runC11(p *core.Program, r *core.Report) {
 				if !pa.Has("SETCAP") && !pa.Has("PANIC") {
 					bad = "a path returns without storing the new capacity (a guard ignores some values): the queue keeps its old bound, e.g. it can no longer be made unbounded"
 				}
+				// changing the bound does not touch what is queued: elements already accepted stay until
+				// a consumer takes them (a lowered bound only refuses new ones)
+				if pa.Has("REMOVEFIRST") || pa.Has("CLEAR") || pa.Has("REMOVELAST") {
+					bad = "setting the capacity removes queued elements: they were accepted and are neither delivered nor reported: " + pa.String()
+				}
 			}
 			r.Check(bad == "", "C11.capacity", name, pos, "capacity stored on every path", bad)
 		}
@@ -493,6 +498,13 @@ func c11Put(r *core.Report, name, pos string, ps []paths.Path, q string) {
 		if pa.Has("REMOVEFIRST") || pa.Has("CLEAR") {
 			ok = false
 			why = append(why, "a refused put changes the queue content")
+		}
+		// every refused element is handed to the failure callback when one is installed: a path that
+		// found the callback non-nil and returns without calling it loses the element silently
+		hasCb := pa.HasArg("COND", cc("failed"+q, "!=", "nil", true)) || pa.HasArg("COND", cc("Failed"+q, "!=", "nil", true))
+		if hasCb && !pa.Has("FAILED") {
+			ok = false
+			why = append(why, "an element is refused with a failure callback installed and the callback is not called: the element is dropped without being reported: "+pa.String())
 		}
 	}
 	if ok {
